@@ -4,6 +4,7 @@ use crate::{Args, Case};
 
 pub mod control;
 pub mod misc;
+pub mod pair;
 pub mod session;
 pub mod streams;
 
@@ -12,6 +13,7 @@ pub fn generate(suite: &str, rng: &mut Rng, thorough: bool) -> (&'static str, Ve
         "session" => ("E2C", session::generate(rng, thorough)),
         "control" => ("E2C", control::generate(rng, thorough, false)),
         "control_cut" => ("E2C", control::generate(rng, thorough, true)),
+        "pair" => ("E2C", pair::generate(rng, thorough)),
         "emit" | "signals" | "wdgram" | "client" => ("E2C", misc::generate(rng, thorough, suite)),
         "streams" | "foreign" | "unknown_uni" | "stall" | "pace" => ("E2C", streams::generate(rng, thorough, suite)),
         _ => panic!("unknown suite {}", suite),
@@ -27,6 +29,7 @@ pub async fn exec(f: u32, args: &Args) -> Args {
         641 => misc::exec_signals(args).await,
         651 => misc::exec_dgram(args).await,
         661 => misc::exec_client(args).await,
+        671 => pair::exec(args).await,
         _ => panic!("unknown function id {}", f),
     }
 }
@@ -40,6 +43,7 @@ pub fn oracle(f: u32, args: &Args, out: &Args) -> Option<(&'static str, String)>
         611 => control::oracle(args, out),
         621 => streams::oracle(args, out),
         631 | 641 | 651 | 661 => misc::oracle(f, args, out),
+        671 => pair::oracle(args, out),
         _ => None,
     }
 }
